@@ -1,3 +1,4 @@
+from functools import reduce
 from typing import TypeVar, Optional, Union
 
 from Bio.Seq import Seq
@@ -94,15 +95,18 @@ class Sequence(AbstractSequence):
         subseq = str(self.sequence[key])
 
         if self.parent is not None and self.parent.location is not None:
-            if isinstance(key, slice):
-                rel_start = 0 if key.start is None else key.start
-                rel_end = len(self) if key.stop is None else key.stop
+            if isinstance(key, slice) and key.step not in (None, 1):
+                new_parent_location = self._stepped_slice_location(key)
             else:
-                rel_start = key
-                rel_end = key + 1
-            new_parent_location = self.parent.location.relative_interval_to_parent_location(
-                relative_start=rel_start, relative_end=rel_end, relative_strand=Strand.PLUS
-            )
+                if isinstance(key, slice):
+                    rel_start = 0 if key.start is None else key.start
+                    rel_end = len(self) if key.stop is None else key.stop
+                else:
+                    rel_start = key
+                    rel_end = key + 1
+                new_parent_location = self.parent.location.relative_interval_to_parent_location(
+                    relative_start=rel_start, relative_end=rel_end, relative_strand=Strand.PLUS
+                )
             new_parent = self.parent.reset_location(new_parent_location)
         else:
             new_parent = self.parent
@@ -115,6 +119,20 @@ class Sequence(AbstractSequence):
             validate_alphabet=False,
             validate_parent=False,
         )
+
+    def _stepped_slice_location(self, key: slice) -> Location:
+        """Location on the parent of the bases picked by a slice with a step: one block per picked base (adjacent
+        ones merged). A negative step reverses the bases without complementing them, which no location can describe."""
+        if key.step < 0:
+            raise ValueError("A Sequence with a location on its parent cannot be sliced with a negative step")
+        location = self.parent.location
+        picked = [
+            location.relative_interval_to_parent_location(i, i + 1, Strand.PLUS)
+            for i in range(*key.indices(len(self)))
+        ]
+        if not picked:
+            return location.relative_interval_to_parent_location(0, 0, Strand.PLUS)
+        return reduce(lambda x, y: x.union(y), picked).optimize_blocks()
 
     def __repr__(self):
         return "<{}>".format(self.summary())
